@@ -1,6 +1,8 @@
 (* Property C17 — CREATE SEQUENCE options are reported with exact values, in any order. *)
 From Coq Require Import String Ascii List ZArith NArith Bool.
 From SDP Require Import Base PyStr Lexer Actions Parse Engine Seq SeqProofs LexProofs IntProofs NumWordProofs.
+From SDP Require Entity Output OtherOutProofs.
+From SDP.Gen Require Tokens.
 Import ListNotations.
 Open Scope string_scope.
 
@@ -40,3 +42,17 @@ Example C17_example_value :
          ("start", PInt 1); ("minvalue", PBool false); ("maxvalue", PInt 9223372036854775807);
          ("cache", PInt 18446744073709551616); ("noorder", PBool true)].
 Proof. vm_compute. reflexivity. Qed.
+
+(* ... and through the output stage: in every supported mode the sequence entity is reported unchanged; bigquery reports a
+   (non-empty) schema under the key dataset and changes nothing else *)
+Theorem C17_sequence_reported_unchanged : forall a norm m, In m Tokens.modes ->
+  (m <> "bigquery" \/ s_schema a = None \/ (exists s, s_schema a = Some s /\ Entity.nms norm s = "")) ->
+  exists d, Seq.denote norm a = PDict d /\ Output.format m false [PDict d] = Ok (PList [PDict d]).
+Proof. exact OtherOutProofs.seq_every_mode. Qed.
+Print Assumptions C17_sequence_reported_unchanged.
+Theorem C17_sequence_bigquery_dataset : forall a norm s, s_schema a = Some s -> Entity.nms norm s <> "" ->
+  exists d, Seq.denote norm a = PDict d /\
+            Output.format "bigquery" false [PDict d]
+            = Ok (PList [PDict (Output.dict_del (dict_set d "dataset" (PStr (Entity.nms norm s))) "schema")]).
+Proof. exact OtherOutProofs.seq_bigquery. Qed.
+Print Assumptions C17_sequence_bigquery_dataset.
